@@ -4,6 +4,7 @@ from __future__ import annotations
 import io
 import os
 import shutil
+import signal
 import tempfile
 
 import numpy as np
@@ -63,6 +64,32 @@ class Env:
     pass
 
 
+CPU_LIMIT = 10.0      # CPU seconds one load may take (they take milliseconds); a runaway load becomes a recorded violation
+
+
+class LoadTimeout(Exception):
+    pass
+
+
+class cpu_limit:
+    """Raise LoadTimeout inside the block after ``seconds`` of CPU time (ITIMER_VIRTUAL: immune to machine load)."""
+
+    def __init__(self, seconds):
+        self.seconds = seconds
+
+    def _handler(self, signum, frame):
+        raise LoadTimeout(f'no result after {self.seconds} CPU seconds')
+
+    def __enter__(self):
+        self.old = signal.signal(signal.SIGVTALRM, self._handler)
+        signal.setitimer(signal.ITIMER_VIRTUAL, self.seconds)
+
+    def __exit__(self, *exc):
+        signal.setitimer(signal.ITIMER_VIRTUAL, 0)
+        signal.signal(signal.SIGVTALRM, self.old)
+        return False
+
+
 def unit_factor(env, style, quantity):
     """Magnitude (working units) of the file unit of ``quantity`` in LAMMPS unit ``style``; see ASSUMPTIONS."""
     if quantity is None or style == 'lj':
@@ -108,11 +135,12 @@ def observe(system):
 def load_and_compare(env, fmt, via, variant, data, e, loadkw, keyprefix=None):
     """One load through the real code + all clauses.  Returns True when the load returned a system."""
     rec, am = env.rec, env.am
-    key = keyprefix or f'{fmt}:{via}:{variant}'
+    key = getattr(env, 'force_key', None) or keyprefix or f'{fmt}:{via}:{variant}'
     what = fmt
     system = None
     with env.ctx.guard(f'{fmt}: load does not raise on a well-formed file', key + ':exception'):
-        system = am.load(fmt, data, **loadkw)
+        with cpu_limit(CPU_LIMIT):
+            system = am.load(fmt, data, **loadkw)
     if system is None:
         return False
     if isinstance(system, tuple):
@@ -224,14 +252,13 @@ def group_data(env):
         fmt = GS.pick(i, 1, FMT_LAMMPS, i // nst)
         withvel = (i + i // nst) % 2 == 0
         explicit_style = (i // 2) % 2 == 0
-        if style.startswith('hybrid') and units != 'metal':
-            # the writer builds hybrid tables from its default unit style whatever `units` says (a matter for the
-            # written-file check): with other unit styles the printed precision is not what `units` implies
-            units = 'metal'
+        # hybrid styles under a unit style other than the default get their own mechanism key (reader and writer must
+        # both build the hybrid column table with the requested units)
+        env.force_key = 'atom_data:hybrid-units' if (style.startswith('hybrid') and units != 'metal') else None
         natoms = natoms_for(ctx, rng, i)
         quantities = ST.quantities(style, withvel)
         sig = ('atom_data', style, units, fmt, 'vel' if withvel else 'novel')
-        if not style_available(env, units, quantities) or any(s in ST.UNSUPPORTED for s in style.split()):
+        if not style_available(env, units, quantities):
             # documented by the unit table itself: no such unit in this style -> the writer cannot build its column table
             truth = GS.gen_truth(rng, kind, origin, pbc, posclass, typeclass, symclass, natoms, 1.0)
             props = gen_style_props(env, rng, truth, style, 'lj', withvel)
@@ -322,6 +349,7 @@ def group_data(env):
                 rec.count('clause:truncated data file raises FileFormatError')
                 rec.fail('truncated data file raises FileFormatError', f'atom_data:truncated:{what}:loaded',
                          natoms=getattr(got, 'natoms', None))
+        env.force_key = None
         for p in (path, bp):
             try:
                 os.remove(p)
@@ -414,7 +442,7 @@ def group_dump(env):
             rec.sample(dict(variant=variant, units=units, float_format=fmt, cell=kind, pbc=pbc, natoms=natoms,
                             props=sorted(props), prop_name=dkw.get('prop_name')))
         text = pinfo = None
-        with ctx.guard('atom_dump dump to a string', 'atom_dump:dump:lj:exception' if units == 'lj' else 'atom_dump:dump:exception'):
+        with ctx.guard('atom_dump dump to a string', 'atom_dump:dump:exception'):
             text, pinfo = build(env, truth, props).dump('atom_dump', return_prop_info=True, **dkw)
         if not isinstance(text, str):
             continue
@@ -609,6 +637,17 @@ def group_poscar(env):
         fmt = GS.pick(i, 1, FMT_POSCAR, rnd)
         natoms = natoms_for(ctx, rng, i + 7)
         truth = GS.gen_truth(rng, kind, origin, (True, True, True), posclass, typeclass, symclass, natoms, 1.0)
+        if (i + rnd) % 4 == 3:
+            # declared atom types beyond the highest one in use (the species list is longer than the types present)
+            k = 1 + i % 2
+            base = list(truth['symbols']) if truth['symbols'] is not None else [None] * truth['natypes']
+            pool = [x for x in GS.ELEMENTS if x not in base]
+            extra = pool[:k] if (symmode == 'system' or i % 3 == 0) else [None] * k
+            truth['symbols'] = base + extra
+            truth['natypes'] = len(truth['symbols'])
+            rec.count('class:poscar:trailing-unused-types')
+            if None in truth['symbols'] and symmode != 'param':
+                rec.count('class:poscar:trailing-unused-types:no-symbols-line')
         cart = cs[0] in 'CcKk'
         dkw = dict(coordstyle=cs, box_scale=scale, float_format=fmt)
         if i % 5 == 0:
@@ -667,11 +706,13 @@ def run(ctx):
     import atomman.unitconvert as uc
     env = Env()
     env.ctx, env.rec, env.am, env.uc, env.fcache = ctx, ctx.rec, am, uc, {}
+    env.force_key = None
     env.tmp = tempfile.mkdtemp(prefix='vfC08_')
     rec = ctx.rec
     cover.start([r[0] for r in REACH])
     try:
         group_data(env)
+        env.force_key = None
         group_dump(env)
         group_table(env)
         group_poscar(env)
@@ -707,8 +748,7 @@ def run(ctx):
         rec.floor(f'class:atom_data:units:{u}', 5)
         rec.floor(f'class:atom_dump:units:{u}', 5)
     for s in ST.STYLES:
-        if s not in ST.UNSUPPORTED:
-            rec.floor(f'class:atom_data:style:{s}', 2)
+        rec.floor(f'class:atom_data:style:{s}', 2)
     rec.floor('class:atom_data:image-flags-written', 20)
     rec.floor('class:atom_data:velocities-section', 20)
     for p in ('000', '111', '101', '010'):
@@ -721,3 +761,5 @@ def run(ctx):
     rec.floor('class:poscar:symbols-written', 10)
     rec.floor('class:poscar:symbols-not-written', 10)
     rec.floor('class:poscar:cell:rotated', 3)
+    rec.floor('class:poscar:trailing-unused-types', 10)
+    rec.floor('class:poscar:trailing-unused-types:no-symbols-line', 3)
